@@ -120,6 +120,68 @@ theorem c01_none_iff (a : Attrs) (ps : List Policy) :
   rw [c01_first_match]; unfold firstMatchSpec
   simp [List.findIdx?_eq_none_iff]
 
+/-! ## `MatchAttributes`: rejected iff no policy matches; otherwise routed under the first matching policy -/
+
+/-- the request is rejected (`ErrNoRouterRuleMatches`, never forwarded) iff no policy has a matching rule; it depends
+    only on the attributes and the current policy list (not on endpoints or logging) -/
+theorem c01_match_attributes_none (a : Attrs) (ps : List PolicyCfg) (all : List Str) (lg : Str) :
+    matchAttributes a ps all lg = none ↔ ∀ p ∈ ps, policySpec a p.rules = false := by
+  unfold matchAttributes
+  cases h : matchPolicies a (ps.map (·.rules)) with
+  | none =>
+    have := (c01_none_iff a (ps.map (·.rules))).1 h
+    simp only [true_iff]
+    intro p hp; exact this p.rules (List.mem_map.2 ⟨p, hp, rfl⟩)
+  | some i =>
+    have hs := (c01_first_match_sound a _ i h).1
+    obtain ⟨q, hq, hm⟩ := hs
+    have hi : i < ps.length := by
+      have := (List.getElem?_eq_some_iff.1 hq).1; simpa using this
+    simp only [List.getElem?_eq_getElem hi]
+    constructor
+    · intro h'; cases h'
+    · intro hall
+      have hq' : q = ps[i].rules := by
+        have := (List.getElem?_eq_some_iff.1 hq).2; simpa using this.symm
+      have := hall ps[i] (List.getElem_mem hi)
+      rw [← hq'] at this; rw [this] at hm; cases hm
+
+/-- a routed request is handled under the first policy that has a matching rule, with that policy's flow-control
+    schema (default `system-default`), upstream subset (all endpoints when empty) and log switch -/
+theorem c01_match_attributes_some (a : Attrs) (ps : List PolicyCfg) (all : List Str) (lg : Str) (pk : Picker)
+    (h : matchAttributes a ps all lg = some pk) :
+    ∃ p, ps[pk.policy]? = some p ∧ policySpec a p.rules = true ∧
+      (∀ j, j < pk.policy → ∀ q, ps[j]? = some q → policySpec a q.rules = false) ∧
+      pk.flowControlName = (if p.flowControlSchemaName = [] then systemDefault else p.flowControlSchemaName) ∧
+      pk.upstreams = (if p.upstreamSubset = [] then all else p.upstreamSubset) ∧
+      pk.enableLog = isLogEnabled lg p.logMode := by
+  unfold matchAttributes at h
+  cases hm : matchPolicies a (ps.map (·.rules)) with
+  | none => simp [hm] at h
+  | some i =>
+    simp only [hm] at h
+    cases hp : ps[i]? with
+    | none => simp [hp] at h
+    | some p =>
+      simp only [hp, Option.some.injEq] at h
+      subst h
+      have hs := c01_first_match_sound a _ i hm
+      obtain ⟨⟨q, hq, hmq⟩, hlt⟩ := hs
+      have hq' : q = p.rules := by
+        rw [List.getElem?_map, hp] at hq; simpa using hq.symm
+      refine ⟨p, hp, by rw [← hq']; exact hmq, ?_, ?_, ?_, rfl⟩
+      · intro j hj r hr
+        exact hlt j hj r.rules (by rw [List.getElem?_map, hr]; rfl)
+      · cases p.flowControlSchemaName <;> simp
+      · cases p.upstreamSubset <;> simp
+
+/-- the documented log-switch table -/
+theorem c01_log_table (u p : Str) :
+    isLogEnabled u p = true ↔ (u ≠ logOff ∧ p ≠ logOff ∧ (u = logOn ∨ p = logOn)) := by
+  unfold isLogEnabled
+  by_cases h1 : u = logOff <;> by_cases h2 : p = logOff <;> by_cases h3 : u = logOn <;> by_cases h4 : p = logOn <;>
+    simp [h1, h2, h3, h4]
+
 /-! ## the documented semantics, spelled out as consequences of `fieldSpec` -/
 
 /-- `"*"` matches everything, whatever else is in the list -/
